@@ -116,6 +116,16 @@ const (
 // (tested on this path, with B on the nil side). Accepted idioms: `if err := A(); err !=
 // nil { return }`, assignment then test, `err == nil` guarding B, returning the error.
 func (r *Run) errChecked(fn ast.Node, construct, tagA, tagB string, isA, isB evPred) (nB int) {
+	return r.errCheckedOpt(fn, construct, tagA, tagB, isA, isB, true)
+}
+
+// errCheckedAfter is errChecked without the requirement that A happens at all: it only
+// demands that once A was performed, B is reached with A's error established nil.
+func (r *Run) errCheckedAfter(fn ast.Node, construct, tagA, tagB string, isA, isB evPred) (nB int) {
+	return r.errCheckedOpt(fn, construct, tagA, tagB, isA, isB, false)
+}
+
+func (r *Run) errCheckedOpt(fn ast.Node, construct, tagA, tagB string, isA, isB evPred, requireA bool) (nB int) {
 	var errObjs []types.Object // error variables A's result was assigned to
 	objIndex := func(o types.Object) int {
 		for i, e := range errObjs {
@@ -274,6 +284,7 @@ func (r *Run) errChecked(fn ast.Node, construct, tagA, tagB string, isA, isB evP
 		if isB(c, ev) {
 			seenB[ev.Pos] = true
 			switch {
+			case s.A == ecNone && !requireA:
 			case s.A == ecNone:
 				c.Violate(ev.Pos, "[%s] %s is reachable without %s having been performed", tagB+"<-"+tagA, tagB, tagA)
 			case s.A == ecBad:
